@@ -326,6 +326,10 @@ impl Property for C09 {
         let mut c = Call::new(if use_str { Api::PreprocessStr } else { Api::Preprocess }, "top.sv");
         c.include_paths = dirs.clone();
         c.strip_comments = rng.chance(1, 4);
+        // where no file is involved the flag must not matter
+        if mech == "macro" || mech == "macro_args" || mech == "macro_paren" {
+            c.ignore_include = rng.chance(1, 3);
+        }
         c.hash_seed = rng.next();
         // "for every call": a third of the runs put 1..4 failing (cyclic) calls on the same thread first
         let mut ops = vec![];
